@@ -288,6 +288,8 @@ class Interp(Ops):
             return VClass(name)
         if name in self.db.shapes or name in self.db.extern_classes:
             return VClass(name)
+        if self.db.lookup(name) is not None:
+            return VContractFn(name)
         raise Unsupported(f"unknown name {name!r}")
 
     def eval_module_const(self, mod, name):
@@ -1032,6 +1034,21 @@ class Interp(Ops):
             return  # docstring
         if self.is_logger_call(s.value):
             return
+        v = s.value
+        if isinstance(v, ast.ListComp) and len(v.generators) == 1 and not v.generators[0].ifs \
+                and any(isinstance(x, ast.Await) for x in ast.walk(v)):
+            # `[await f(x) for x in xs]` as a statement: a loop whose result list is discarded
+            it = self.eval(v.generators[0].iter, fr)
+            try:
+                self.iterate(it)
+            except Unsupported:
+                loop = ast.For(target=v.generators[0].target, iter=v.generators[0].iter,
+                               body=[ast.Expr(value=v.elt)], orelse=[])
+                ast.copy_location(loop, s)
+                ast.fix_missing_locations(loop)
+                loop._comp_src = ast.unparse(v)
+                loop._comp_id = id(v)
+                return self.symbolic_loop(loop, fr, it)
         self.eval(s.value, fr)
 
     def is_logger_call(self, e) -> bool:
